@@ -220,13 +220,24 @@ impl Stream for Z64 {
             g.push("local.edge", format!("z64.local us={a} cs={b} name=61 m=0 large=1"));
             g.push("local.edge", format!("z64.local us={a} cs={b} name=61 m=8 large=0"));
         }}
+        // tier "quickx" = a further seed of the quick tier (bin/check): the deterministic sparse-sink scenarios below
+        // would only be repeated, so they run with the base seed alone
+        let base = tier != "quickx";
         // entry-count thresholds on every run (empty directories are cheap)
         for dirs in [65534u64, 65535, 65536, 65537] {
-            if tier == "thorough" || dirs == 65536 || dirs == 65535 { g.push("big.count", format!("z64.big sizes=- large=- dirs={dirs} comment=636f6d")); }
+            if base && (tier == "thorough" || dirs == 65536 || dirs == 65535) { g.push("big.count", format!("z64.big sizes=- large=- dirs={dirs} comment=636f6d")); }
         }
         // the 4 GiB guard of an entry not declared large, with a compressing method (the compressed stream stays
         // tiny, so only the uncompressed byte counter can refuse): the last write crosses the limit, then finish
-        g.push("big.guard", format!("z64.big sizes={} large=0 dirs=0 comment=- method=93", 1u64 << 32));
+        if base { g.push("big.guard", format!("z64.big sizes={} large=0 dirs=0 comment=- method=93", 1u64 << 32)); }
+        if base && tier != "thorough" {
+            let t = 1u64 << 32;
+            // a central directory pushed past 4 GiB by entries that are each small and not declared large: only the
+            // directory OFFSET needs ZIP64 (end record + locator), no entry does
+            g.push("big.cdoffset", format!("z64.big sizes={},{} large=0,0 dirs=1 comment=78", 3 * (1u64 << 30), (1u64 << 30) + (1 << 20)));
+            // an entry of exactly the marker value next to an entry whose header offset needs ZIP64 (D8), declared large
+            g.push("big.offset", format!("z64.big sizes={},{} large=1,0 dirs=1 comment=-", t, t - 1));
+        }
         if tier == "thorough" {
             g.push("big.guard", format!("z64.big sizes={} large=0 dirs=0 comment=- method=8", (1u64 << 32) + 5));
             g.push("big.guard", format!("z64.big sizes={} large=1 dirs=0 comment=- method=93", (1u64 << 32) + 5));
